@@ -128,7 +128,21 @@ def cases(draw):
     nb["extra_top"] = uniq
     order = [["mod", i] for i in range(len(nb["modules"]))] + [["extra", i] for i in range(len(uniq))]
     nb["top_order"] = draw(st.permutations(order))
-    return b, prog, perm, ins, uname, nb
+    # R3b: the unrelated type has the Rust name of an existing type but lives in a bridge module of its own (other namespace,
+    # other ABI names, renamed where the backend has no namespaces)
+    twin = None
+    opaques = [it for _, it in ir.all_items(prog) if it["kind"] == "opaque" and not it.get("lifetimes")]
+    if opaques:
+        o = draw(st.sampled_from(opaques))
+        twin = copy.deepcopy(prog)
+        t_it = {"kind": "opaque", "name": o["name"], "attrs": ['#[diplomat::attr(not(supports = namespacing), rename = "DvTwin%s")]' % o["name"]], "lifetimes": [], "impls": [{"attrs": [], "methods": [
+            {"name": "dv_twin_make", "attrs": [], "lifetimes": [], "self": None, "params": [["seed", ["prim", "u8"], []]], "ret": ["box", o["name"], []]},
+            {"name": "dv_twin_peek", "attrs": [], "lifetimes": [], "self": ["ref", None, False], "params": [], "ret": ["prim", "i32"]}]}]}
+        # (modules are kept in a map ordered by name: the twin module sorts before or after the existing ones)
+        tm = {"name": draw(st.sampled_from(["aa_dv_twin_mod", "zz_dv_twin_mod"])), "attrs": ['#[diplomat::abi_rename = "dvtwin_{0}"]', '#[diplomat::attr(auto, namespace = "dvtwin")]'], "uses": [], "items": [t_it]}
+        ir.default_order(tm)
+        twin["modules"].insert(draw(st.integers(0, len(twin["modules"]))), tm)
+    return b, prog, perm, ins, uname, nb, twin
 
 
 def run_prog(art, work, backend, prog, tag, cfg):
@@ -158,6 +172,14 @@ def relation_check(art, work, backend, cfg, prog, variant, rel, uname=None):
         return "skip"
     f0 = r0.files()
     s1, r1 = run_prog(art, work, backend, variant, rel, cfg)
+    if not r1.ok and rel == "R3b":
+        return "skip-variant"      # backends without namespaces in file names cannot hold two types of one name
+    if rel == "R3b":
+        f1 = r1.files()
+        changed = [k for k in sorted(f0) if os.path.basename(k) not in AGGREGATES[backend] and f0[k] != f1.get(k)]
+        if changed:
+            return "R3b: adding an unreferenced type in a module of its own (same Rust name as an existing type) changed pre-existing files %s\n--- variant lib.rs ---\n%s" % (changed[:5], s1)
+        return None
     if not r1.ok:
         return "%s: variant was not accepted although the base program was: %s\n--- base lib.rs ---\n%s\n--- variant lib.rs ---\n%s" % (rel, r1.stderr[-400:], s0, s1)
     f1 = r1.files()
@@ -186,16 +208,19 @@ def worker(widx, seed, params):
     def body(case):
         if acc.full():
             return
-        backend, prog, perm, ins, uname, nb = case
+        backend, prog, perm, ins, uname, nb, twin = case
         cfg = CONFIGS[backend][0]
         ntypes = sum(1 for _ in ir.all_items(prog))
-        variants = [("R1", prog), ("R2", perm), ("R3", ins), ("R4", nb)]
+        variants = [("R1", prog), ("R2", perm), ("R3", ins), ("R4", nb)] + ([("R3b", twin)] if twin is not None else [])
         for rel, var in variants:
             identity = rel == "R2" and ir.render_program(perm) == ir.render_program(prog)
             msg = relation_check(art, work, backend, cfg, prog, var, rel, uname)
             if msg == "skip":
                 acc.case([ir.dumps(prog), backend, rel], False, ["%s:base-not-accepted" % backend])
                 break
+            if msg == "skip-variant":
+                acc.labels["%s:R3b-variant-not-accepted" % backend] += 1
+                continue
             labels = ["%s:%s" % (backend, rel), "modules:%d" % len(prog["modules"])]
             if identity:
                 labels.append("R2:identity-permutation")
@@ -237,7 +262,7 @@ def replay(ctx):
     work = build.workdir("c14-replay")
     msg = relation_check(art, work, c["backend"], c["config"], c["base"], c["variant"], c["relation"], c.get("uname"))
     build.rm_workdir(work)
-    if msg and msg != "skip":
+    if msg and msg not in ("skip", "skip-variant"):
         print(msg[:3000])
         return {"violations": [{"replay": ctx.replay, "message": msg[:1500]}]}
     print("replay ok (relation holds)")
